@@ -95,7 +95,7 @@ void run_case(std::istream &in, std::size_t limit) {
 // ---------------------------------------------------------------------------------------------
 // C09: cocls::queue<int> / cocls::queue<void> with future-based pops (`pop`) and coroutine
 // consumers (`cons n`: a detached coroutine that co_awaits pop() up to n times, one after the
-// other, and stops at the first exception).  Pop ids are global, in the order of the pop() calls.
+// other, and stops at the first exception; `cbcons n`: the same loop written as a callback).  Pop ids are global, in the order of the pop() calls.
 // ---------------------------------------------------------------------------------------------
 template <typename Q, typename T>
 struct qcase {
@@ -159,10 +159,51 @@ async<void> consumer(qcase<Q, T> &c, int n) {
     }
 }
 
+// callback consumer (`cbcons n`): no coroutine; an awaiter with a resume function is subscribed to the pop future and
+// the callback - which runs *inside* the resolving call (push / unblock_pop / ~queue) - records the outcome and calls
+// pop() again (after a value) or empty() (after unblock_pop): re-entrant use, legal because the queue resolves
+// promises outside its lock.
+template <typename Q, typename T>
+struct cb_consumer {
+    qcase<Q, T> &c;
+    int left;
+    std::size_t cur = 0;
+    std::unique_ptr<future<T>> fut;
+    std::vector<std::unique_ptr<future<T>>> old;    // resolved futures are kept until the end of the case
+    awaiter awt;
+    cb_consumer(qcase<Q, T> &c_, int n) : c(c_), left(n), awt(&cb_consumer::wake, this) {}
+    static suspend_point<void> wake(awaiter *, void *ctx) noexcept {
+        static_cast<cb_consumer *>(ctx)->on_ready();
+        return {};
+    }
+    bool record() {
+        std::string o = vh::outcome(*fut);
+        c.pops[cur].out = o;
+        c.pops[cur].done = true;
+        if (o.rfind("exc:", 0) == 0) (void)c.q->empty();     // the queue is alive: look at it from inside the callback
+        return o == "ok" || o.rfind("v:", 0) == 0;
+    }
+    void issue() {
+        while (left > 0) {
+            --left;
+            cur = c.pops.size();
+            c.pops.emplace_back();
+            c.pops[cur].coro = true;
+            if (fut) old.push_back(std::move(fut));
+            fut.reset(new future<T>([&] { return c.q->pop(); }));
+            if (fut->subscribe(&awt)) return;       // parked: wake() continues
+            if (!record()) return;
+        }
+    }
+    void on_ready() { if (record()) issue(); }
+};
+
 template <typename Q, typename T>
 void run_qcase(std::istream &in) {
     qcase<Q, T> c;
+    std::vector<std::unique_ptr<cb_consumer<Q, T>>> cbs;   // destroyed before c (declared after it)
     c.q.reset(new Q());
+    alarm(4);       // a re-entrant deadlock shows as a hang: die instead (reported as a crash, rc = -SIGALRM)
     std::vector<std::string> evs;
     std::string line;
     auto swallow = [&] {
@@ -179,6 +220,7 @@ void run_qcase(std::istream &in) {
             c.q.reset();
             c.poll(evs);
             vh::emit("end", evs);
+            alarm(0);
             return;
         } else if (w[0] == "push") {
             bool r;
@@ -200,6 +242,11 @@ void run_qcase(std::istream &in) {
             int n = atoi(w[1].c_str());
             consumer<Q, T>(c, n).detach();     // the discarded suspend_point starts the coroutine right here
             head << "cons";
+        } else if (w[0] == "cbcons" && w.size() > 1) {
+            int n = atoi(w[1].c_str());
+            cbs.emplace_back(new cb_consumer<Q, T>(c, n));
+            cbs.back()->issue();
+            head << "cbcons";
         } else if (w[0] == "upop" && w.size() > 1) {
             int code = atoi(w[1].c_str());
             bool r = c.q->unblock_pop(std::make_exception_ptr(test_exc(code)));
@@ -214,6 +261,7 @@ void run_qcase(std::istream &in) {
             vh::emit("destroy", evs);
             swallow();
             vh::emit("end", evs);
+            alarm(0);
             return;
         } else {
             head << "bad-op";
@@ -221,6 +269,7 @@ void run_qcase(std::istream &in) {
         c.poll(evs);
         vh::emit(head.str(), evs);
     }
+    alarm(0);
 }
 
 // ---------------------------------------------------------------------------------------------
